@@ -403,6 +403,11 @@ impl DeltaBuilder {
                 let Some(current_node_delta) = self.current_node_delta.as_mut() else {
                     anyhow::bail!("received a key-value op without a node op before.");
                 };
+                // A node delta's max version is at least the version of its last key-value.
+                anyhow::ensure!(
+                    current_node_delta.max_version <= max_version,
+                    "max version should not be lower than the version of a previous key-value"
+                );
                 current_node_delta.max_version = max_version;
             }
         }
